@@ -26,8 +26,8 @@ IV == <<VInt(0), VInt(1), VInt(2), VInt(3), VInt(-2)>>
 Pow5(i) == 5^i
 \* i-th (1-based) base-5 digit of v selects an int of the universe
 PV(i, v) == IV[((v \div Pow5(i - 1)) % 5) + 1]
-\* the universe: 0 1 2 3 -2 False True, a list, an object with one attribute; plus None, a string, 0.0 1.5 -0.5 -2.0
-UNIV == 15
+\* the universe: 0 1 2 3 -2 False True, a list, an object with one attribute; plus None, a string, 0.0 1.5 -0.5 -2.0, a set
+UNIV == 16
 ULeaf(id, u) == CASE u <= 5 -> Leaf(id, IV[u])
                   [] u = 6 -> Leaf(id, VBool(FALSE))
                   [] u = 7 -> Leaf(id, VBool(TRUE))
@@ -39,6 +39,7 @@ ULeaf(id, u) == CASE u <= 5 -> Leaf(id, IV[u])
                   [] u = 13 -> Leaf(id, VFloat(3, 2))
                   [] u = 14 -> Leaf(id, VFloat(-1, 2))
                   [] u = 15 -> Leaf(id, VFloat(-2, 1))
+                  [] u = 16 -> LeafS(id, <<VInt(1), VInt(id + 1)>>)      \* a set object {1, id + 1}: two such operands overlap without being equal
 \* seeded subsets of 0..n-1 of size <= k
 Pick(n, k, salt) == { ((Seed + salt) * 7919 + j * 104729) % n : j \in 0..(k - 1) }
 
@@ -190,7 +191,7 @@ FormTree(tpl, v) ==
          [] tpl = 40 -> Bin("*", Lst(<<e1, e2>>), Un("-", Idx(LeafL(3), x4)))
 
 \* ------------------------------------------------------------------------------ assignment shapes
-NStmt == 34
+NStmt == 40
 \* [body, env0]; env0 = pre-bound names: <<name, leaf-like record>>
 StmtProg(tpl, v) ==
     LET e1 == Leaf(1, PV(1, v))
@@ -205,6 +206,9 @@ StmtProg(tpl, v) ==
         C == Name("c")
         I == Name("i")
         op == Ops12[(v % 12) + 1]
+        sop == <<"|", "&", "-", "^">>[(v % 4) + 1]
+        S1(id) == LeafS(id, <<VInt(1), VInt(2)>>)
+        S2(id) == LeafS(id, <<VInt(2), VInt(3)>>)
         none == <<>>
         P(b, env) == [body |-> b, env0 |-> env]
     IN CASE tpl = 1 -> P(Assign(<<A, B>>, e1), none)
@@ -241,6 +245,13 @@ StmtProg(tpl, v) ==
          [] tpl = 32 -> P(Assign(<<Idx(LeafL(1), x2), Idx(LeafL(6), Leaf(7, PX(1, v)))>>, Cmp(<<"<", "<">>, <<e3, e4, e5>>)), none)
          [] tpl = 33 -> P(Aug("*", A, e1), <<<<"a", Leaf(90, VBool(TRUE))>>>>)
          [] tpl = 34 -> P(Assign(<<Tup(<<A, B>>), Lst(<<C, Idx(LeafL(1), x2)>>)>>, Tup(<<e3, e4>>)), none)
+         \* in-place set operators: the target keeps ITS object (updated), the right operand keeps its contents
+         [] tpl = 35 -> P(Aug(sop, A, B), <<<<"a", S1(90)>>, <<"b", S2(91)>>>>)
+         [] tpl = 36 -> P(Aug(sop, A, S2(1)), <<<<"a", S1(90)>>, <<"c", S1(90)>>>>)
+         [] tpl = 37 -> P(Aug(sop, Idx(Lst(<<S1(1), S2(2)>>), x3), S2(4)), none)
+         [] tpl = 38 -> P(Aug(sop, A, A), <<<<"a", S1(90)>>>>)
+         [] tpl = 39 -> P(Assign(<<A>>, Bin(sop, B, C)), <<<<"b", S1(90)>>, <<"c", S2(91)>>>>)
+         [] tpl = 40 -> P(Aug(sop, A, e1), <<<<"a", S1(90)>>>>)
 
 \* ------------------------------------------------------------------------------ random trees (PyExprSim)
 \* tape[pos + 1] decides the node at tree position pos (children of pos: 4 pos + 1 .. 4 pos + 3)
@@ -340,7 +351,10 @@ CaseOf(d) ==
                          env |-> [i \in 1..Len(names(o)) |-> <<names(o)[i], J(o.env[names(o)[i]])>>],
                          heap |-> LET ids == SortedIds(DOMAIN o.heap) IN [i \in 1..Len(ids) |-> <<ids[i], J(o.heap[ids[i]])>>]]
                    ELSE [log |-> o.log, exc |-> o.exc, val |-> J(o.val)]
-        vt == [i \in 1..Len(leaves) |-> <<leaves[i].id, IF leaves[i].v.t = "ref" THEN J(leaves[i].h) ELSE J(leaves[i].v)>>]
+        \* one table entry per leaf id (two pre-bound names may share one leaf: aliases)
+        lids == SortedIds({ leaves[i].id : i \in 1..Len(leaves) })
+        leafOf(id) == leaves[CHOOSE j \in 1..Len(leaves) : leaves[j].id = id]
+        vt == [i \in 1..Len(lids) |-> <<lids[i], IF leafOf(lids[i]).v.t = "ref" THEN J(leafOf(lids[i]).h) ELSE J(leafOf(lids[i]).v)>>]
     IN [res |-> IF skip THEN "skip" ELSE IF metaOk THEN "ok" ELSE "badmeta",
         rec |-> IF skip THEN [fam |-> d[1], skip |-> TRUE, d |-> d]
                 ELSE [fam |-> d[1], skip |-> FALSE, d |-> d, stmt |-> p.isStmt, src |-> Render(p.body), dump |-> Dump(p.body, p.isStmt),
